@@ -260,6 +260,7 @@ func encBlob(seed, i int) (blob.Ref, []byte) {
 
 type encResult struct {
 	receives, acked, failedRecv int
+	retries, gaveUp             int
 	metaCalls, blobsCalls       int
 	packedUploads               []int // per-method index (R…) of every packed-meta upload, in order
 	removes                     int   // RemoveBlobs calls on the meta store
@@ -297,40 +298,52 @@ func runEncrypt(n, seed int, metaF, blobsF map[string]byte) (*encResult, error) 
 	for i := 0; i < n; i++ {
 		w.logMu.Lock()
 		w.op = i + 1
-		before := w.injected
 		w.logMu.Unlock()
 		br, v := encBlob(seed, i)
-		out := watchdog(20*time.Second, func() string {
-			sb, err := blobserver.Receive(ctx, w.sto, br, bytes.NewReader(v))
-			if err != nil {
-				return "err"
+		// a failed receive is retried, as a client would, until it is acknowledged
+		for attempt := 0; ; attempt++ {
+			w.logMu.Lock()
+			before := w.injected
+			w.logMu.Unlock()
+			out := watchdog(20*time.Second, func() string {
+				sb, err := blobserver.Receive(ctx, w.sto, br, bytes.NewReader(v))
+				if err != nil {
+					return "err"
+				}
+				if int(sb.Size) != len(v) || sb.Ref != br {
+					return "wrong"
+				}
+				return "ok"
+			})
+			if out == "hang" || out == "panic" {
+				add("receive%d:%s", i, out)
+				return res, nil
 			}
-			if int(sb.Size) != len(v) || sb.Ref != br {
-				return "wrong"
+			if !w.quiesce() {
+				add("receive%d:background-goroutines-did-not-finish", i)
+				return res, nil
 			}
-			return "ok"
-		})
-		if out == "hang" || out == "panic" {
-			add("receive%d:%s", i, out)
-			return res, nil
-		}
-		if !w.quiesce() {
-			add("receive%d:background-goroutines-did-not-finish", i)
-			return res, nil
-		}
-		w.logMu.Lock()
-		inj := w.injected > before
-		w.logMu.Unlock()
-		switch out {
-		case "ok":
-			acked[i] = true
-		case "err":
+			w.logMu.Lock()
+			inj := w.injected > before
+			w.logMu.Unlock()
+			if out == "ok" {
+				acked[i] = true
+				break
+			}
+			if out != "err" {
+				add("receive%d:wrong-answer", i)
+				break
+			}
 			res.failedRecv++
 			if !inj {
 				add("receive%d:error-without-injected-failure", i)
+				break
 			}
-		default:
-			add("receive%d:wrong-answer", i)
+			if attempt >= 8 {
+				res.gaveUp++
+				break
+			}
+			res.retries++
 		}
 		// now and then read an acknowledged blob back through the live store
 		if len(acked) > 0 && rnd.Chance(15) {
@@ -356,7 +369,8 @@ func runEncrypt(n, seed int, metaF, blobsF map[string]byte) (*encResult, error) 
 	w.faultsOn.Store(false)
 	res.injected = w.injected
 	// classify the calls: within one operation's window the first meta ReceiveBlob is the single meta
-	// blob of that receive, every further one is a packed-meta upload of the background compaction
+	// blob of that receive, every further one is a packed-meta upload of the background compaction (only
+	// the healthy program's classification is used: with retries a window has several single meta blobs)
 	perOp := map[int]int{}
 	rIdx := 0
 	for _, c := range w.log {
@@ -460,8 +474,8 @@ func (r *encResult) line(tag string) string {
 	if len(pu) == 0 {
 		pu = []string{"-"}
 	}
-	return fmt.Sprintf("%s acked=%d failed=%d injected=%d meta-calls=%d blobs-calls=%d packed-uploads=%s meta-removes=%d meta-blobs-left=%d violations=%d %s",
-		tag, r.acked, r.failedRecv, r.injected, r.metaCalls, r.blobsCalls, strings.Join(pu, ","), r.removes, r.metaBlobsLeft,
+	return fmt.Sprintf("%s acked=%d failed=%d retries=%d gave-up=%d injected=%d meta-calls=%d blobs-calls=%d packed-uploads=%s meta-removes=%d meta-blobs-left=%d violations=%d %s",
+		tag, r.acked, r.failedRecv, r.retries, r.gaveUp, r.injected, r.metaCalls, r.blobsCalls, strings.Join(pu, ","), r.removes, r.metaBlobsLeft,
 		len(r.viol), strings.Join(r.viol, ";"))
 }
 
@@ -553,6 +567,11 @@ func encryptPrograms(r *hk.Run) {
 				break
 			}
 		}
+	}
+	// a foreground receive whose write to one of the two stores fails, then the client's retry
+	for _, mode := range []string{"b", "a"} {
+		run("receive-meta-write-fails-"+mode, fmt.Sprintf("R%d:%s,R%d:%s", 5+rnd.Intn(60), mode, packed[0]+10+rnd.Intn(60), mode), "-")
+		run("receive-blobs-write-fails-"+mode, "-", fmt.Sprintf("R%d:%s,R%d:%s", 5+rnd.Intn(60), mode, 120+rnd.Intn(60), mode))
 	}
 	run("compaction-upload-and-remove-fail", fmt.Sprintf("R%d:b,D0:b,R%d:a", packed[0], packed[1]+0), "-")
 	// random bursts over every call of both stores
